@@ -42,7 +42,15 @@ static size_t class_of(size_t req) {
     return c;
 }
 
+/* One block in eight carries hostile content: in every 16 bytes the first 8 are the marker the allocator's own page
+ * headers start with ("uespemos", AWS_SBA_TAG_VALUE) and the rest is not. Releasing a parent-served block looks at the
+ * 4 KiB boundary below it to decide whether the block is one of its chunks; that boundary can lie inside a neighbouring
+ * live block, whose bytes then have to fail the test on their own (the header's second marker sits at +24 = a non-marker
+ * half of the pattern). A user's data never has BOTH markers in place in these cases: that would misroute by design. */
 static inline uint8_t pat(uint64_t id, size_t off) {
+    if ((id & 7) == 5 && (off & 15) < 8) {
+        return (uint8_t)"uespemos"[off & 7];
+    }
     return (uint8_t)(id * 167 + off * 13 + (id >> 7) + 3);
 }
 
